@@ -40,12 +40,13 @@ class C05(Property):
         "specs from the C01 generator restricted to the stated domain (producers declare grid and units, no DelayToPush), with ties (equal "
         "steps and times), fan-out, delay-resolved cycles, and at most one injected fault (unit conflict, grid conflict, missing initial "
         "data) so the expected error class is unique; all listing permutations for <=4 components (12 random beyond) x shuffled link orders. "
-        "non-trivial = >=2 permutations produced different update orders (or different connect orders for faults) yet were compared; "
+        "non-trivial = >=2 permutations of a spec with >=2 time components (or an injected fault) were run and compared (how many of them "
+        "produced different update orders is reported as a counter, not required: scheduling may legitimately ignore the listing); "
         "distinct by shape key + fault"
     )
     assumptions = ("after a failing connect/run only the error class and phase are compared",)
     cases = {"quick": 300, "thorough": 20000}
-    min_nontrivial = {"quick": 100, "thorough": 5000}
+    min_nontrivial = {"quick": 200, "thorough": 12000}
 
     def gen(self, rnd, i, tier):
         if i % 6 == 5:
@@ -121,14 +122,15 @@ class C05(Property):
         out.count("outcome_" + (ref["outcome"] if ref else "none"))
         out.count("fault_" + str(spec["fault"]))
         if len(orders_seen) >= 2:
-            out.count("specs_with_order_sensitive_schedules")
-            out.key = shape_key(spec) + str(spec["fault"])
-        elif spec["fault"] and len(spec["perms"]) >= 2:
+            out.count("specs_with_order_sensitive_schedules")  # informational: an implementation may also schedule independently of the listing
+        n_time = sum(1 for c in spec["comps"] if c["type"] == "time")
+        if len(spec["perms"]) >= 2 and (n_time >= 2 or spec["fault"]):
+            out.count("specs_run_in_several_orders")
             out.key = shape_key(spec) + str(spec["fault"])
         return out
 
     def coverage_gaps(self, counters, tier):
-        need = ["runs", "specs_with_order_sensitive_schedules", "outcome_ok", "outcome_FinamMetaDataError", "outcome_FinamCircularCouplingError",
+        need = ["runs", "specs_run_in_several_orders", "outcome_ok", "outcome_FinamMetaDataError", "outcome_FinamCircularCouplingError",
                 "fault_units", "fault_grid", "fault_no_initial_data", "fault_None"]
         return [f"{k} never observed" for k in need if not counters.get(k)]
 
